@@ -12,6 +12,8 @@
                                    `time <rel> <sec>` | `clock <rel> <sec>` | `value <node|link> <cls> <id> <attr> <rel> <v>` | none
                                    tokens: w:<word (lower case)>  h:<h>:<m>:<s>  c:<h>:<m>:<s>:<AM|PM>  n:<int>
    A <pipe|pump|valve> <tok>    -> the action `_read_control_line` builds from the third word: status <s> | speed <v> | setting <v> | none
+   D <prefix tree: & | a>       -> `<conjs of the repaired INP writer (AND of OR-groups) over numbered atoms> ; <conjs in tree order (str(cond))>`
+                                   e.g. `D | & a a a` -> `if:0 or:2 and:1 or:2 ; if:0 and:1 or:2`
    anything else                -> bad -/
 import WntrModel.Model.InpText
 open Wntr.InpText
@@ -43,6 +45,24 @@ def showAtom : RAtom → String
   | .sysTime r s => s!"time {relName r} {s}"
   | .sysClock r s => s!"clock {relName r} {s}"
   | .value isNode cls n a r v => s!"value {if isNode then "node" else "link"} {cls} {n} {a} {relName r} {v}"
+
+/-- prefix notation: `&` / `|` binary, `a` the next atom number -/
+def readTree : Nat → List String → Nat → Option (Cond Nat × List String × Nat)
+  | 0, _, _ => none
+  | fuel + 1, w :: ws, n =>
+    if w == "a" then some (.atom n, ws, n + 1)
+    else if w == "&" || w == "|" then
+      match readTree fuel ws n with
+      | some (l, ws1, n1) =>
+        match readTree fuel ws1 n1 with
+        | some (r, ws2, n2) => some (if w == "&" then .and l r else .or l r, ws2, n2)
+        | none => none
+      | none => none
+    else none
+  | _, [], _ => none
+
+def showClauses (cls : List (Conj × Nat)) : String :=
+  String.intercalate " " (cls.map fun cl => (match cl.1 with | .if_ => "if" | .and_ => "and" | .or_ => "or") ++ ":" ++ toString cl.2)
 
 def showTree : Cond Nat → String
   | .atom a => toString a
@@ -115,6 +135,10 @@ def handle (line : String) : String :=
       | some (.setting v) => s!"setting {v}"
       | none => "none"
     | _, _ => "bad"
+  | "D" :: ws =>
+    match readTree 200 ws 0 with
+    | some (t, [], _) => showClauses (flattenCnf t) ++ " ; " ++ showClauses (flatten t .if_)
+    | _ => "bad"
   | "C" :: ws =>
     match ws.mapM conjOf with
     | some cs => match parse (number cs) with
